@@ -398,8 +398,15 @@ func firstMatchRules(c *core.Ctx) {
 				}
 			case p.To == h && match < 0:
 			case p.To == h && match > 0:
-				ok = false
-				c.Fail("first-match", cname, lastPos(p), "the scan continues after a match (remember-and-continue returns a later element)")
+				// remembering the index is the same as returning at once when the loop cannot make another pass: the
+				// remembered slot starts negative, is set to the (non-negative) index of the element under the
+				// match, every pass requires slot < 0, and after the loop slot >= 0 returns seq[slot]
+				if why := rememberedIndexForm(an, h, l, fn, p); why != "" {
+					ok = false
+					c.Fail("first-match", cname, lastPos(p), "the scan continues after a match (remember-and-continue returns a later element): %s", why)
+				} else {
+					nFound++
+				}
 			case p.To == h && match == 0:
 				ok = false
 				c.Fail("first-match", cname, lastPos(p), "an iteration path tests no match condition")
@@ -414,6 +421,86 @@ func firstMatchRules(c *core.Ctx) {
 			c.Fail("first-match", cname, fn.Pos(), "no path returns a matching element")
 		}
 	}
+}
+
+// rememberedIndexForm checks the "first hit by index" idiom on the matching path p of the scan loop l; returns the
+// reason why it is not that idiom ("" when it is).
+func rememberedIndexForm(an *ir.Analysis, h *ssa.BasicBlock, l *Loop, fn *ssa.Function, p *ir.Path) string {
+	if l == nil || l.tailForm || l.Rotated() {
+		return "not an index scan"
+	}
+	if s0, isK := l.Start.IntConst(); !isK || s0 < -1 || l.Step != 1 {
+		return "not an ascending index scan"
+	}
+	idx := l.Index(an)
+	// the slot: an integer phi other than the loop counter that this path sets to the index
+	var slot *ssa.Phi
+	for _, in := range h.Instrs {
+		phi, isPhi := in.(*ssa.Phi)
+		if !isPhi {
+			break
+		}
+		if phi != l.Phi && ir.Same(p.PhiOut[phi], idx) {
+			slot = phi
+		}
+	}
+	if slot == nil {
+		return "the match is not recorded as the index of the element under inspection"
+	}
+	sym := an.Start[h].Reg(slot)
+	neg := &ir.Term{Op: "bin", Aux: "<", Args: []*ir.Term{sym, ir.Const("0")}}
+	lb := ir.LoopBlocks(h)
+	for _, ps := range an.Segs {
+		for _, q := range ps {
+			if q.To != h {
+				continue
+			}
+			if q.From == nil || !lb[q.From] {
+				if k, isK := q.PhiOut[slot].IntConst(); !isK || k >= 0 {
+					return "the remembered index does not start negative"
+				}
+				continue
+			}
+			// every pass of the loop runs only while nothing is remembered
+			if polarity(q, neg) <= 0 {
+				return "the loop can make another pass after a match was remembered"
+			}
+			if q != p && !ir.Same(q.PhiOut[slot], sym) && !ir.Same(q.PhiOut[slot], idx) {
+				return "the remembered index is changed on a non-matching pass"
+			}
+		}
+	}
+	// after the loop: slot >= 0 => the element at the slot is returned
+	seen := false
+	for _, q := range an.Segs[h] {
+		if q.To != nil {
+			continue
+		}
+		switch polarity(q, neg) {
+		case -1:
+			seen = true
+			if q.Exit != ir.ExitReturn || len(q.Results) == 0 {
+				return "a remembered match is not returned"
+			}
+			r := q.Results[0]
+			okR := false
+			if r.Op == "load" && len(r.Args) == 1 && r.Args[0].Op == "iaddr" && ir.Same(r.Args[0].Args[0], l.RangeOver) && ir.Same(r.Args[0].Args[1], sym) {
+				okR = true
+			}
+			if r.Op == "index" && len(r.Args) == 2 && ir.Same(r.Args[0], l.RangeOver) && ir.Same(r.Args[1], sym) {
+				okR = true
+			}
+			if !okR {
+				return "after the loop " + short(r) + " is returned, expected the element at the remembered index"
+			}
+		case 0:
+			return "the loop is left without deciding whether a match was remembered"
+		}
+	}
+	if !seen {
+		return "no exit returns the remembered element"
+	}
+	return ""
 }
 
 func polInt(b bool) int {
